@@ -29,7 +29,7 @@ const decoyPort = 5099
 
 func scenarioStamp() int {
 	prop := *flagProp
-	rule := "round trips UA -> proxy -> backend -> proxy -> UA from loopback sources whose top Via names another host and port; rport absent/valueless/spoofed x received absent/spoofed x no-received {omitted,false,true} x UDP / TCP / outbound-TCP ingress; decoy sockets at every address a misrouted response could go to; "
+	rule := "round trips UA -> proxy -> backend -> proxy -> UA from loopback sources whose top Via names another host and port; rport absent/valueless/spoofed x received absent/spoofed x no-received {omitted,false,true} x UDP / TCP / outbound-TCP ingress; decoy sockets at every address a misrouted response could go to; eight more requests over TCP are answered only after the run and not before 62 s have passed; "
 	if prop == "C07" {
 		rule += "oracle = the driver's knowledge of each socket's true (IP, port); distinct = (ingress, no-received, rport shape, received shape) cells"
 	} else {
@@ -80,6 +80,45 @@ func scenarioStamp() int {
 	}
 	stamped, untouched, back := 0, 0, 0
 	burstStamped := 0
+	// requests whose answer takes more than a minute (a call that rings): sent now over TCP
+	// connections from ephemeral ports, answered after the run and not before 62 s have passed
+	started := time.Now()
+	type slowRT struct {
+		conn *wire.TCPConn
+		req  *wire.Obs
+		id   string
+		svc  int
+		via  string
+	}
+	var slow []*slowRT
+	for k := 0; k < 8; k++ {
+		svc := k % len(w.Svcs)
+		sv := w.Svcs[svc]
+		u := w.UAs[k%len(w.UAs)]
+		cn, err := w.Net.Dial(fmt.Sprintf("ua%d/slow%d", u.Index, k), u.IP+":0", fmt.Sprintf("%s:%d", sv.IP, sv.TCP))
+		if err != nil {
+			continue
+		}
+		id := fmt.Sprintf("sl%d", k)
+		via := []string{u.IP + ":5060;rport", w.Plan.Decoy(1) + ":5099;rport", u.IP + ";rport", u.Name + ":5060;rport", u.IP + ":5060", cn.Local}[k%6]
+		m := wire.StdRequest(id, "INVITE", fmt.Sprintf("sip:svc%d.verif.test", svc), "tcp", "placeholder", 0)
+		parts := strings.SplitN(via, ";", 2)
+		v := fmt.Sprintf("SIP/2.0/TCP %s;branch=z9hG4bKvf%s", parts[0], id)
+		if len(parts) > 1 {
+			v += ";" + parts[1]
+		}
+		wire.SetHeader(m, "Via", v)
+		if sv.HasDef {
+			wire.SetHeader(m, "To", "<tel:+15550166>")
+		}
+		cn.Send(m.Bytes(), id)
+		obs, ok := w.Net.WaitCase(id, func(o []*wire.Obs) bool { return len(o) >= 1 }, w.BarrierWait)
+		if !ok || obs[0].Msg == nil || !sv.BackendEndpointNames()[obs[0].Ep] {
+			cn.Close(false)
+			continue
+		}
+		slow = append(slow, &slowRT{conn: cn, req: obs[0], id: id, svc: svc, via: via})
+	}
 	for i := 0; i < n; i++ {
 		if h := w.Health(); h != "" {
 			run.Violation("proxy died during the run (belongs to C08; the run cannot continue)", map[string]any{"health": h})
@@ -97,6 +136,39 @@ func scenarioStamp() int {
 		if run.Violations() > 10 {
 			break
 		}
+	}
+	if run.Violations() <= 10 && len(slow) > 0 {
+		if d := 62*time.Second - time.Since(started); d > 0 {
+			time.Sleep(d)
+		}
+		slowOK := 0
+		dw := &dialogWorld{World: w.World}
+		for _, sr := range slow {
+			if h := w.Health(); h != "" {
+				break
+			}
+			dw.respondFromBackend(sr.svc, sr.req, sr.id, 200, "t"+sr.id)
+			w.Net.Drain()
+			rid := sr.id + "x200"
+			var at []string
+			good := 0
+			for _, o := range w.Net.ForCase(rid) {
+				at = append(at, fmt.Sprintf("%s conn#%d %s<-%s", o.Ep, o.Conn, o.Local, o.Peer))
+				if o.Proto == "tcp" && o.Conn == sr.conn.ID {
+					good++
+				}
+			}
+			if good != 1 || len(at) != 1 {
+				run.Violation("the answer to a request that waited more than a minute did not travel back to the source of the request", map[string]any{"service": sr.svc, "no_received": w.Svcs[sr.svc].NoRecv, "via_sent_by": sr.via,
+					"request_connection": fmt.Sprintf("conn#%d %s", sr.conn.ID, sr.conn.Local), "response_seen_at": at, "seconds_waited": int(time.Since(started).Seconds())})
+			} else {
+				slowOK++
+				back++
+				run.Eval(fmt.Sprintf("slow-answer|svc%d|%s", sr.svc, strings.SplitN(sr.via, ":", 2)[0]))
+			}
+			sr.conn.Close(false)
+		}
+		run.Observe("answers_after_more_than_a_minute_back_at_the_source", slowOK)
 	}
 	run.Observe("requests_stamped_correctly_in_concurrent_bursts", burstStamped)
 	run.Observe("requests_seen_stamped", stamped)
